@@ -84,6 +84,7 @@ CONSTANTS Kind,        \* "kinesis" | "embedded" | "httpapi"
           MaxCur,      \* cursors are 0..MaxCur (0 = nothing read)
           MaxLen,      \* steps per behaviour (generation only)
           LogOn,       \* FALSE: no history (exhaustive runs)
+          MaxStarts,   \* (re)starts per behaviour (generation only)
           Dev_LastRegress, Dev_ForgetWithheld, Dev_StateAtCompletion
 
 VARIABLES shards,      \* the stream: <<[lo, hi, par, closed], ...>>
@@ -101,10 +102,11 @@ VARIABLES shards,      \* the stream: <<[lo, hi, par, closed], ...>>
           K,           \* the latest completed checkpoint
           whyS, whyF,  \* ghost: shards dropped by Dev_StateAtCompletion / Dev_ForgetWithheld
           bad,         \* ghost: violations produced by the last action
+          nst,         \* (re)starts so far (generation only; stays 0 in exhaustive runs)
           hist
 
 vars == <<shards, up, R, known, asg, last, scur, own, cur, fin, finBy, pend, barr,
-          pcur, pfin, K, whyS, whyF, bad, hist>>
+          pcur, pfin, K, whyS, whyF, bad, nst, hist>>
 
 D    == NInit * 64
 All  == 1..MaxShards
@@ -134,10 +136,10 @@ DA(kn0, asg0, last0) ==
 \* the property, judged on one round of assignments `av` made with timeline `f`
 WhyOf(S, wS, wF) == IF S \cap wS # {} THEN "Dev_StateAtCompletion"
                     ELSE IF S \cap wF # {} THEN "Dev_ForgetWithheld" ELSE "?"
-Judge(av, f, own1, wS, wF) ==
+Judge(av, f, own1, kn1, wS, wF) ==
      {[k |-> "reread", s |-> s, dev |-> IF Dev_LastRegress THEN "Dev_LastRegress" ELSE "?"] : s \in av \cap f}
   \cup {[k |-> "early", s |-> s, dev |-> WhyOf(Par(s) \ f, wS, wF)] : s \in {x \in av : Par(x) \ f # {}}}
-  \cup {[k |-> "lost", s |-> s, dev |-> WhyOf({s}, wS, wF)] :
+  \cup {[k |-> "lost", s |-> s, dev |-> IF Dev_LastRegress /\ Par(s) \cap kn1 # {} THEN "Dev_LastRegress" ELSE WhyOf({s}, wS, wF)] :
           s \in {x \in Ids : x \notin f /\ Par(x) \subseteq f /\ own1[x] = 0}}
 
 AssignList(av, r, sc) ==
@@ -162,7 +164,7 @@ Init ==
   /\ known = {} /\ asg = {} /\ last = 0 /\ scur = NoCur
   /\ own = Zero /\ cur = Zero /\ fin = {} /\ finBy = Zero
   /\ pend = FALSE /\ barr = {} /\ pcur = NoCur /\ pfin = {}
-  /\ K = NoK /\ whyS = {} /\ whyF = {} /\ bad = {} /\ hist = <<>>
+  /\ K = NoK /\ whyS = {} /\ whyF = {} /\ bad = {} /\ nst = 0 /\ hist = <<>>
 
 -----------------------------------------------------------------------------
 \* the stream's owner
@@ -174,7 +176,7 @@ Split(s) ==
                      \o <<[lo |-> shards[s].lo, hi |-> m, par |-> {s}, closed |-> FALSE],
                           [lo |-> m, hi |-> shards[s].hi, par |-> {s}, closed |-> FALSE]>>
   /\ bad' = {} /\ Log([a |-> "Split", s |-> s])
-  /\ UNCHANGED <<up, R, known, asg, last, scur, own, cur, fin, finBy, pend, barr, pcur, pfin, K, whyS, whyF>>
+  /\ UNCHANGED <<up, R, known, asg, last, scur, own, cur, fin, finBy, pend, barr, pcur, pfin, K, whyS, whyF, nst>>
 
 Merge(s, t) ==
   /\ Kind = "kinesis" /\ s \in Ids /\ t \in Ids /\ ~shards[s].closed /\ ~shards[t].closed
@@ -182,16 +184,18 @@ Merge(s, t) ==
   /\ shards' = [shards EXCEPT ![s].closed = TRUE, ![t].closed = TRUE]
                  \o <<[lo |-> shards[s].lo, hi |-> shards[t].hi, par |-> {s, t}, closed |-> FALSE]>>
   /\ bad' = {} /\ Log([a |-> "Merge", s |-> s, t |-> t])
-  /\ UNCHANGED <<up, R, known, asg, last, scur, own, cur, fin, finBy, pend, barr, pcur, pfin, K, whyS, whyF>>
+  /\ UNCHANGED <<up, R, known, asg, last, scur, own, cur, fin, finBy, pend, barr, pcur, pfin, K, whyS, whyF, nst>>
 
 \* (re)start of the job's splitter from the latest completed checkpoint
 Start(r) ==
   /\ r \in Runners
+  /\ LogOn => nst < MaxStarts
+  /\ nst' = IF LogOn THEN nst + 1 ELSE nst
   /\ LET kin == Kind = "kinesis"
          d   == DA(IF kin THEN K.known ELSE {}, {}, IF kin THEN K.last ELSE 0)
          f   == K.fin
          o1  == [s \in All |-> IF s \in d.avail THEN Idx(s, r) ELSE 0]
-         b   == Judge(d.avail, f, o1, K.whyS, K.whyF)
+         b   == Judge(d.avail, f, o1, d.known, K.whyS, K.whyF)
      IN  /\ up' = TRUE /\ R' = r
          /\ known' = d.known /\ asg' = d.asg /\ last' = d.last
          /\ scur' = K.cur /\ fin' = f /\ finBy' = Zero
@@ -207,14 +211,14 @@ Start(r) ==
 TickBody(final) ==
   LET d  == DA(known, asg, last)
       o1 == [s \in All |-> IF s \in d.avail THEN Idx(s, R) ELSE own[s]]
-      b  == Judge(d.avail, fin, o1, whyS, whyF)
+      b  == Judge(d.avail, fin, o1, d.known, whyS, whyF)
   IN  /\ known' = d.known /\ asg' = d.asg /\ last' = d.last
       /\ own' = o1
       /\ cur' = [s \in All |-> IF s \in d.avail THEN (IF scur[s] >= 0 THEN scur[s] ELSE 0) ELSE cur[s]]
       /\ bad' = b
       /\ Log([a |-> "Tick", final |-> final, assign |-> AssignList(d.avail, R, scur), bad |-> BadSeq(b),
               known |-> SetSeq(d.known), last |-> d.last])
-      /\ UNCHANGED <<shards, up, R, scur, fin, finBy, pend, barr, pcur, pfin, K, whyS, whyF>>
+      /\ UNCHANGED <<shards, up, R, scur, fin, finBy, pend, barr, pcur, pfin, K, whyS, whyF, nst>>
 
 Tick == up /\ Kind = "kinesis" /\ TickBody(FALSE)
 
@@ -222,7 +226,7 @@ Progress(s) ==
   /\ up /\ Kind = "kinesis" /\ s \in Ids /\ own[s] # 0 /\ cur[s] < MaxCur
   /\ cur' = [cur EXCEPT ![s] = @ + 1]
   /\ bad' = {} /\ Log([a |-> "Progress", s |-> s, c |-> cur[s] + 1])
-  /\ UNCHANGED <<shards, up, R, known, asg, last, scur, own, fin, finBy, pend, barr, pcur, pfin, K, whyS, whyF>>
+  /\ UNCHANGED <<shards, up, R, known, asg, last, scur, own, fin, finBy, pend, barr, pcur, pfin, K, whyS, whyF, nst>>
 
 \* embedded / httpapi readers advance every split they hold by one batch
 RunnerRead(r) ==
@@ -230,7 +234,7 @@ RunnerRead(r) ==
   /\ \E s \in Ids : own[s] = r /\ cur[s] < MaxCur
   /\ cur' = [s \in All |-> IF own[s] = r /\ cur[s] < MaxCur THEN cur[s] + 1 ELSE cur[s]]
   /\ bad' = {} /\ Log([a |-> "RunnerRead", r |-> r])
-  /\ UNCHANGED <<shards, up, R, known, asg, last, scur, own, fin, finBy, pend, barr, pcur, pfin, K, whyS, whyF>>
+  /\ UNCHANGED <<shards, up, R, known, asg, last, scur, own, fin, finBy, pend, barr, pcur, pfin, K, whyS, whyF, nst>>
 
 Finish(s) ==
   /\ up /\ s \in Ids /\ own[s] # 0 /\ shards[s].closed
@@ -238,14 +242,14 @@ Finish(s) ==
   /\ fin' = fin \cup {s} /\ finBy' = [finBy EXCEPT ![s] = own[s]]
   /\ known' = known \ {s} /\ asg' = asg \ {s}
   /\ bad' = {} /\ Log([a |-> "Finish", s |-> s, r |-> own[s]])
-  /\ UNCHANGED <<shards, up, R, last, scur, cur, pend, barr, pcur, pfin, K, whyS, whyF>>
+  /\ UNCHANGED <<shards, up, R, last, scur, cur, pend, barr, pcur, pfin, K, whyS, whyF, nst>>
 
 StartCkpt ==
   /\ up /\ ~pend
   /\ pend' = TRUE /\ barr' = {} /\ pcur' = NoCur
   /\ pfin' = {s \in fin : finBy[s] = 0 /\ own[s] = 0}
   /\ bad' = {} /\ Log([a |-> "StartCkpt"])
-  /\ UNCHANGED <<shards, up, R, known, asg, last, scur, own, cur, fin, finBy, K, whyS, whyF>>
+  /\ UNCHANGED <<shards, up, R, known, asg, last, scur, own, cur, fin, finBy, K, whyS, whyF, nst>>
 
 Barrier(r) ==
   /\ up /\ pend /\ r \in (1..R) \ barr
@@ -255,7 +259,7 @@ Barrier(r) ==
   /\ bad' = {}
   /\ Log([a |-> "Barrier", r |-> r, states |-> [j \in 1..Len(SetSeq({s \in All : own[s] = r})) |->
              [s |-> SetSeq({s \in All : own[s] = r})[j], c |-> cur[SetSeq({s \in All : own[s] = r})[j]]]]])
-  /\ UNCHANGED <<shards, up, R, known, asg, last, scur, own, cur, fin, finBy, pend, K, whyS, whyF>>
+  /\ UNCHANGED <<shards, up, R, known, asg, last, scur, own, cur, fin, finBy, pend, K, whyS, whyF, nst>>
 
 Complete ==
   /\ up /\ pend /\ barr = 1..R
@@ -269,7 +273,7 @@ Complete ==
                   whyF |-> whyF \cup (IF Dev_ForgetWithheld THEN base \ asgView ELSE {})]
          /\ Log([a |-> "Complete", known |-> SetSeq(kn), last |-> last])
   /\ pend' = FALSE /\ bad' = {}
-  /\ UNCHANGED <<shards, up, R, known, asg, last, scur, own, cur, fin, finBy, barr, pcur, pfin, whyS, whyF>>
+  /\ UNCHANGED <<shards, up, R, known, asg, last, scur, own, cur, fin, finBy, barr, pcur, pfin, whyS, whyF, nst>>
 
 Steps ==
   \/ \E r \in Runners : Start(r)
